@@ -96,6 +96,11 @@ def check_merge(ctx: Ctx):
             e = ast.parse(key, mode="eval").body
         except SyntaxError:
             return False
+        if isinstance(e, ast.Name):
+            d = single_def(f, e.id)
+            e = d if d is not None else e
+        if isinstance(e, ast.Call) and isinstance(e.func, ast.Attribute) and e.func.attr == "get" and isinstance(e.func.value, ast.Name) and e.args and isinstance(e.args[0], ast.Name) and e.args[0].id == ref:
+            return True  # <dict>.get(ref): the recorded score (None only while the reference is unmatched)
         return isinstance(e, ast.Subscript) and isinstance(e.slice, ast.Name) and e.slice.id == ref and isinstance(e.value, ast.Name)
 
     kinds: dict[int, str] = {}
@@ -416,6 +421,9 @@ def _check_combination(ctx, cls, f, ncs: Func, ref, pred, kinds=None, add_calls=
     # candidate must be part of the prediction selection at the time of the call
     appends = [n for n in walk_no_nested(g.node) if isinstance(n, ast.Call) and isinstance(n.func, ast.Attribute) and n.func.attr in ("append",) and isinstance(n.func.value, ast.Name) and n.func.value.id == preds and len(n.args) == 1 and isinstance(n.args[0], ast.Name) and n.args[0].id == cand]
     pi = b.get("pred_instance_idx")
+    if isinstance(pi, ast.Name) and pi.id not in (preds, cand):
+        d_ = single_def(g, pi.id)  # a local built from the matched predictions and the candidate
+        pi = d_ if d_ is not None else pi
     incl = False
     if isinstance(pi, ast.Name) and pi.id == preds and appends and appends[0].lineno < mc.lineno:
         incl = True
